@@ -44,6 +44,9 @@ type propCfg struct {
 func d(s string) time.Duration { x, _ := time.ParseDuration(s); return x }
 
 var props = map[string]propCfg{
+	"C05": {Level: "exploration",
+		Quick: tierCfg{Checks: 3000, Shards: 4, Timeout: d("10m"), ShrinkTime: d("30s")},
+		Thor:  tierCfg{Checks: 40000, Shards: 12, Timeout: d("40m"), ShrinkTime: d("120s")}},
 	"C18": {Level: "exploration",
 		Quick: tierCfg{Checks: 12000, Shards: 1, Timeout: d("5m"), ShrinkTime: d("30s")},
 		Thor:  tierCfg{Checks: 100000, Shards: 12, Timeout: d("30m"), ShrinkTime: d("120s")}},
@@ -412,6 +415,19 @@ func run(id string, cfg propCfg, mode string, rest []string) int {
 		if merged.Known[f.ID] > 0 && !knownStillFailing[f.ID] {
 			fmt.Printf("KNOWN-FINDING: property=%s %s: %s (hit %d times by the generated search, e.g. %s)\n", id, f.ID, f.Summary, merged.Known[f.ID], firstLines(merged.KnownExample[f.ID], 2))
 			knownStillFailing[f.ID] = true
+		}
+	}
+
+	if os.Getenv("VERIF_COLLECT") != "" {
+		keys := make([]string, 0)
+		for k := range merged.KnownExample {
+			if strings.HasPrefix(k, "unlisted:") {
+				keys = append(keys, k)
+			}
+		}
+		sort.Strings(keys)
+		for _, k := range keys {
+			fmt.Printf("COLLECT %5d %s\n        %s\n", merged.Counters[k], k, firstLines(merged.KnownExample[k], 3))
 		}
 	}
 
